@@ -336,10 +336,10 @@ theorem traced_tablerowCols (P : Prims) (tr : Bool) (cols : Option Expr) (loc : 
     cases cv <;> exact traced_pure _
   · exact traced_pure _
 
-theorem traced_loopRun (P : Prims) (path : Bytes) (loc : Loc) (tr : Bool) (var : Bytes) (e : Expr) (mods : LoopMods)
+theorem traced_loopRun {budget : Int} (P : Prims) (path : Bytes) (loc : Loc) (tr : Bool) (var : Bytes) (e : Expr) (mods : LoopMods)
     {bodyM : M Status} (hb : Traced bodyM) (tooMany : Bool) (elseM : Option (M Status))
     (he : ∀ m, elseM = some m → Traced m) :
-    Traced (loopRun P path loc tr var e mods bodyM tooMany elseM) := by
+    Traced (loopRun budget P path loc tr var e mods bodyM tooMany elseM) := by
   unfold loopRun
   refine traced_wrapAt _ _ (traced_bind traced_getEnv (fun env => traced_bind (traced_ofRes _) (fun v =>
     traced_bind (traced_ofRes _) (fun items0 => traced_bind (traced_intModifier _ _ _) (fun off =>
